@@ -109,8 +109,12 @@ func c14Burst(r *Run, h int) {
 	stop, done := make(chan struct{}), make(chan struct{})
 	go func() { tc.Run(stop); close(done) }()
 	defer func() { close(stop); <-done }()
-	const batches, per = 12, 500
-	cs := map[string]interface{}{"notifications": batches, "inserts_per_notification": per}
+	batches, per, mods := 12, 500, 0
+	if h == 0 {
+		// once per run: close to what the buffer holds (65536), inserts and then modifications of rows
+		batches, mods = 126, 2000
+	}
+	cs := map[string]interface{}{"notifications": batches, "inserts_per_notification": per, "modifications_afterwards": mods}
 	r.Case("burst", fmt.Sprint(h))
 	n := 0
 	for b := 0; b < batches; b++ {
@@ -126,8 +130,21 @@ func c14Burst(r *Run, h int) {
 			return
 		}
 	}
+	if mods > 0 {
+		tu := ovsdb.TableUpdate2{}
+		for k := 1; k <= mods; k++ {
+			row := rowToOvs(Row{"n": VA(AI(int64(-k)))})
+			tu[mkUUID(100000+k)] = &ovsdb.RowUpdate2{Modify: &row}
+		}
+		if err := tc.Populate2(ovsdb.TableUpdates2{"T": tu}); err != nil {
+			r.Violation("burst", cs, err.Error(), "applied", true, "applying a notification of modifications failed", "")
+			close(release)
+			return
+		}
+		n += mods
+	}
 	close(release)
-	deadline := time.Now().Add(10 * time.Second)
+	deadline := time.Now().Add(30 * time.Second)
 	for time.Now().Before(deadline) && len(rec.snapshot()) < n {
 		time.Sleep(2 * time.Millisecond)
 	}
@@ -145,6 +162,18 @@ func c14Burst(r *Run, h int) {
 	}
 	if got := len(tc.Table("T").Rows()); got != len(st) {
 		r.Violation("burst", cs, fmt.Sprintf("replay holds %d rows", len(st)), fmt.Sprintf("cache holds %d", got), true, "the events replayed do not reproduce the cache", "")
+		return
+	}
+	if mods > 0 {
+		var replayed []DumpRow
+		for k, row := range st {
+			p := strings.SplitN(k, "/", 2)
+			replayed = append(replayed, DumpRow{Table: p[0], UUID: p[1], Row: row})
+		}
+		sort.Slice(replayed, func(i, j int) bool { return replayed[i].Table+replayed[i].UUID < replayed[j].Table+replayed[j].UUID })
+		if a, b := dumpCanon(replayed), dumpCanon(cacheDump(cacheOnly{tc}, db, []string{"T"})); a != b {
+			r.Violation("burst", cs, diffLines(a, b), "replayed events = cache", true, "the events replayed do not reproduce the cache (close to the capacity of the event buffer)", "")
+		}
 	}
 }
 
